@@ -125,7 +125,9 @@ def big_run_cases(rng, tier):
 
 
 def run(ctx):
-    ctx.rule = ("(a) C10 generator (arity 1..4, 0..6 entries, coordinate x common magnitude classes, boundary row ids): real save bytes; "
+    ctx.rule = ("(a) C10 generator (arity 1..4, 0..6 entries, coordinate x common magnitude classes, boundary row ids) and C10 'scale' generator (2..8 entries mixing "
+                "short 0..10 and long 64..600 / 63,64,65 / 255,256,257 / ~70 000-id strictly increasing row-id arrays in every dict order; the ~70 000-id dicts are "
+                "judged by the struct oracle only): real save bytes; "
                 "(b) the same dicts re-encoded by a struct-based encoder at every admissible (iw, rw) in {1,2,4,8}^2 (plus arbitrary recorded "
                 "dimension counts for empty indexes) and run-structured dicts with >255 / >65535 row ids in total at 1- / 2-byte row-id words: real load; "
                 "(c) duck-typed arrays with totals around 2^30 and 2^32: real save header; distinct per (entries, common, iw, rw, d0)")
@@ -142,32 +144,45 @@ def run(ctx):
     lits_a, recs_a, lits_b, recs_b = [], [], [], []
     n_width_files = 0
     width_hist = {}
-    for i in range(n_gen):
-        entries, common, desc = c10.gen_entries(ctx.rng, small_rows=(ctx.rng.random() < 0.6))
-        rec = {"entries": [[list(k), v] for k, v in entries], "common": common}
+    n_scale_files = [0, 0]    # saved for real, independent files loaded
+
+    def one_dict(entries, common, lits_a, recs_a, lits_b, recs_b, max_pairs=None, in_coq=True, stream_tag=""):
+        nonlocal n_width_files
+        big = sum(len(v) for _, v in entries) > 2000
+        rec = {"entries": [[list(k), v] for k, v in entries], "common": common} if not big else \
+              {"entries_summary": [[list(k), len(v), v[:3]] for k, v in entries], "common": common, "row_id_lengths": [len(v) for _, v in entries]}
+        full = {"entries": [[list(k), v] for k, v in entries], "common": common}
         # (a)
         try:
             data = impl.save(entries, common)
         except Exception as e:
-            bad.append(dict(rec, stream="a", what="save raised %s: %s" % (type(e).__name__, e)))
+            bad.append(dict(full, stream="a", what="save raised %s: %s" % (type(e).__name__, e)))
             data = None
         if data is not None:
             want = c10.enc(entries, common, c10.narrowest(c10.max_word(entries, common)), 4)
             if data != want:
-                bad.append(dict(rec, stream="a", what="bytes written differ from the documented layout", observed=data.hex(), expected=want.hex()))
+                at = next((i for i, (x, y) in enumerate(zip(data, want)) if x != y), min(len(data), len(want)))
+                bad.append(dict(full, stream="a", what="bytes written differ from the documented layout (first difference at byte %d of %d; row-id array lengths in dict order %r)"
+                                % (at, len(want), [len(v) for _, v in entries][:12]), observed=data.hex()[:6000], expected=want.hex()[:6000]))
             else:
                 try:
                     d = c10.dec(data)
                     if (d[0], d[1]) != ([(tuple(k), list(v)) for k, v in entries], common):
-                        bad.append(dict(rec, stream="a", what="independent decoder does not recover the data"))
+                        bad.append(dict(full, stream="a", what="independent decoder does not recover the data"))
                 except ValueError as e:
-                    bad.append(dict(rec, stream="a", what="independent decoder rejects the file: %s" % e))
-            lits_a.append("(%s, %s, %s)" % (c10.lit_entries(entries), core.zlit(common), c10.lit_bytes(data)))
-            recs_a.append(rec)
+                    bad.append(dict(full, stream="a", what="independent decoder rejects the file: %s" % e))
+            if in_coq:
+                lits_a.append("(%s, %s, %s)" % (c10.lit_entries(entries), core.zlit(common), c10.lit_bytes(data)))
+                recs_a.append(rec)
+            if stream_tag:
+                n_scale_files[0] += 1
             ctx.nontrivial.add(("a", c10.case_key(entries, common)))
         # (b)
         ws = []
         pairs = admissible_widths(entries, common)
+        if max_pairs is not None and len(pairs) > max_pairs:
+            ctx.rng.shuffle(pairs)
+            pairs = sorted(pairs[:max_pairs])
         for iw, rw in pairs:
             d0s = [0] if entries else [0, ctx.rng.choice([1, 2, 3, 4, 255])]
             for d0 in d0s:
@@ -175,14 +190,27 @@ def run(ctx):
                 o = impl.load(file)
                 why = oracle_loaded(entries, common, rw, o)
                 if why:
-                    bad.append(dict(rec, stream="b", iw=iw, rw=rw, d0=d0, what="independently written file (%d-byte index words, %d-byte row-id words): %s" % (iw, rw, why),
+                    bad.append(dict(full, stream="b", iw=iw, rw=rw, d0=d0, what="independently written file (%d-byte index words, %d-byte row-id words): %s" % (iw, rw, why),
                                     file_hex=file.hex()[:4000], observed=repr(o)[:600]))
-                ws.append("(%d, %d, %d, %d, %s)" % (d0, iw, rw, c10.checksum(file), c10.lit_obs(o)))
+                if in_coq:
+                    ws.append("(%d, %d, %d, %d, %s)" % (d0, iw, rw, c10.checksum(file), c10.lit_obs(o)))
                 n_width_files += 1
-                width_hist["%d/%d" % (iw, rw)] = width_hist.get("%d/%d" % (iw, rw), 0) + 1
+                if stream_tag:
+                    n_scale_files[1] += 1
+                width_hist["%s%d/%d" % (stream_tag, iw, rw)] = width_hist.get("%s%d/%d" % (stream_tag, iw, rw), 0) + 1
                 ctx.nontrivial.add(("b", c10.case_key(entries, common), iw, rw, d0))
-        lits_b.append("(%s, %s, [%s])" % (c10.lit_entries(entries), core.zlit(common), "; ".join(ws)))
-        recs_b.append(dict(rec, widths=pairs))
+        if in_coq:
+            lits_b.append("(%s, %s, [%s])" % (c10.lit_entries(entries), core.zlit(common), "; ".join(ws)))
+            recs_b.append(dict(rec, widths=pairs))
+
+    for i in range(n_gen):
+        entries, common, desc = c10.gen_entries(ctx.rng, small_rows=(ctx.rng.random() < 0.6))
+        one_dict(entries, common, lits_a, recs_a, lits_b, recs_b)
+
+    # ---------------- (a) + (b) on the 'scale' stream: short and long row-id arrays in every dict order ----------------
+    lits_as, recs_as, lits_bs, recs_bs = [], [], [], []
+    for entries, common, desc, in_coq in c10.gen_scale(ctx.rng, 8 if quick else 100, 1 if quick else 4):
+        one_dict(entries, common, lits_as, recs_as, lits_bs, recs_bs, max_pairs=2, in_coq=in_coq, stream_tag="scale:")
 
     # ---------------- (b) big totals ----------------
     lits_r, recs_r = [], []
@@ -236,25 +264,30 @@ def run(ctx):
     # ---------------- compare inside Coq ----------------
     ra = core.run_cases("c11a", c10.PRELUDE, lits_a, "entries_t * Z * list Z", "chk_c11_bytes", "explain_c11_bytes", shard_size=150 if quick else 500)
     rb = core.run_cases("c11b", c10.PRELUDE, lits_b, "entries_t * Z * list (Z * Z * Z * Z * obs)", "chk_c11_widths", "explain_c11_widths", shard_size=60 if quick else 400)
+    ras = core.run_cases("c11as", c10.PRELUDE, lits_as, "entries_t * Z * list Z", "chk_c11_bytes", "explain_c11_bytes", shard_size=4 if quick else 12)
+    rbs = core.run_cases("c11bs", c10.PRELUDE, lits_bs, "entries_t * Z * list (Z * Z * Z * Z * obs)", "chk_c11_widths", "explain_c11_widths", shard_size=3 if quick else 9)
     rr = core.run_cases("c11r", c10.PRELUDE, lits_r, "list run_t * Z * Z * Z * Z * obs_runs", "chk_c11_runs", "explain_c11_runs", shard_size=1)
     rc = core.run_cases("c11c", c10.PRELUDE, lits_c, "list (list Z) * Z * list Z * list Z * bool", "chk_c11_header", "explain_c11_header", shard_size=400)
-    ctx.evaluations = len(lits_a) + n_width_files + len(lits_r) + len(lits_c)
+    ctx.evaluations = len(lits_a) + n_scale_files[0] + n_width_files + len(lits_r) + len(lits_c)
     ctx.samples = recs_a[:2] + recs_b[:1] + recs_r[:1] + recs_c[:2]
     ctx.coverage.update({
         "files_saved_for_real": len(lits_a), "independent_files_loaded_for_real": n_width_files, "width_pairs_iw/rw": dict(sorted(width_hist.items())),
         "beyond_rowid_word_range_files": [{"rw": r["rw"], "total_rowids": r["total_rowids"]} for r in recs_r],
         "sparse_header_cases": len(lits_c), "sparse_totals_max": max(r["total"] for r in recs_c),
-        "model_disagreements": {"a": len(ra.failing), "b": len(rb.failing), "runs": len(rr.failing), "c": len(rc.failing)},
-        "coq_case_shards_failed": len(ra.errors) + len(rb.errors) + len(rr.errors) + len(rc.errors),
+        "scale_stream": {"files_saved_for_real": n_scale_files[0], "independent_files_loaded_for_real": n_scale_files[1], "compared_inside_coq": len(lits_as),
+                         "oracle_only_(one_~70000-id_array)": n_scale_files[0] - len(lits_as)},
+        "model_disagreements": {"a": len(ra.failing), "b": len(rb.failing), "a_scale": len(ras.failing), "b_scale": len(rbs.failing), "runs": len(rr.failing), "c": len(rc.failing)},
+        "coq_case_shards_failed": len(ra.errors) + len(rb.errors) + len(ras.errors) + len(rbs.errors) + len(rr.errors) + len(rc.errors),
         "tie": "W2 inside Coq: chk_c11_bytes, chk_c11_widths, chk_c11_runs, chk_c11_header (Indx/Check.v)"})
 
     # ---------------- verdict ----------------
     class Merged:
         pass
     m = Merged()
-    m.failing = [("a", i) for i in ra.failing] + [("b", i) for i in rb.failing] + [("r", i) for i in rr.failing] + [("c", i) for i in rc.failing]
-    m.errors = ra.errors + rb.errors + rr.errors + rc.errors
-    m.explain = "\n".join(x for x in (ra.explain, rb.explain, rr.explain, rc.explain) if x)
+    m.failing = ([("a", i) for i in ra.failing] + [("b", i) for i in rb.failing] + [("as", i) for i in ras.failing] + [("bs", i) for i in rbs.failing]
+                 + [("r", i) for i in rr.failing] + [("c", i) for i in rc.failing])
+    m.errors = ra.errors + rb.errors + ras.errors + rbs.errors + rr.errors + rc.errors
+    m.explain = "\n".join(x[-1500:] for x in (ra.explain, rb.explain, ras.explain, rbs.explain, rr.explain, rc.explain) if x)
     if bad:
         bad = sorted(bad, key=lambda r: (r["stream"] != "c", len(json.dumps(r, default=str))))
         sig = {"a": "layout:bytes-differ", "b": "layout:independent-file-misread", "b-big": "layout:independent-file-misread", "c": "layout:size-field"}[bad[0]["stream"]]
@@ -268,7 +301,7 @@ def run(ctx):
             w.append("correspondence suites c11a/b/r/c: %d cases where the code differs from the model/specification" % len(m.failing))
         if m.errors:
             w.append("correspondence shards failed to evaluate: %s" % (m.errors[0][1][-400:],))
-        pick = {"a": recs_a, "b": recs_b, "r": recs_r, "c": recs_c}
+        pick = {"a": recs_a, "b": recs_b, "as": recs_as, "bs": recs_bs, "r": recs_r, "c": recs_c}
         ctx.report("c11:not-shown", "; ".join(w), {
             "broken_proof_log": (pr["log"] or "")[-2500:] if not pr["ok"] else "",
             "disagreeing_cases": [dict(pick[s][i], stream=s) for s, i in m.failing[:10]], "explain": m.explain[-3000:],
